@@ -10,8 +10,10 @@ import (
 	"os"
 	"path/filepath"
 	"sort"
+	"time"
 
 	"github.com/superfly/litefs"
+	"github.com/superfly/ltx"
 
 	"lfsverif/internal/common"
 	"lfsverif/internal/lfs"
@@ -29,6 +31,9 @@ type Step struct {
 	ToWAL    bool              `json:"to_wal,omitempty"`
 	Split    bool              `json:"split,omitempty"`
 	CkptMode int               `json:"ckpt_mode,omitempty"` // 0 passive 1 full 2 restart 3 truncate
+	Ages     []bool            `json:"ages,omitempty"`      // retention: per file (directory order) older than the cut-off?
+	Backup   bool              `json:"backup,omitempty"`    // retention: a backup client is configured
+	HWM      uint64            `json:"hwm,omitempty"`       // retention: high-water mark
 }
 
 type Obs struct {
@@ -54,6 +59,8 @@ type Obs struct {
 }
 
 type Config struct {
+	ForceWAL  bool // switch to WAL mode at the first opportunity
+	Retention bool // generate retention sweeps and stray temporary files
 	PageSize  int
 	Regime    int // 0 tiny, 1 around 256, 2 around 512, 3 lock page (64K pages)
 	AllowWAL  bool
@@ -179,6 +186,10 @@ func (h *Runner) genStep() Step {
 		return Step{Op: "drop"}
 	case x < 12:
 		return Step{Op: "lockonly"}
+	case x < 22 && h.Cfg.Retention:
+		return h.genRetention()
+	case x < 25 && h.Cfg.Retention:
+		return Step{Op: "tmpfile"}
 	}
 	if h.WALMode {
 		switch {
@@ -189,8 +200,31 @@ func (h *Runner) genStep() Step {
 		}
 		return h.genWTX(cur)
 	}
-	toWAL := h.Cfg.AllowWAL && r.Chance(12)
+	toWAL := h.Cfg.AllowWAL && (r.Chance(12) || h.Cfg.ForceWAL)
 	return h.genRTX(cur, toWAL)
+}
+
+func (h *Runner) genRetention() Step {
+	r := h.R
+	infos, _ := lfs.ListLTX(h.DBDir())
+	n := len(infos)
+	st := Step{Op: "retention", Backup: r.Bool()}
+	k := 0
+	if n > 0 {
+		k = r.Intn(n + 1)
+	}
+	for i := 0; i < n; i++ {
+		st.Ages = append(st.Ages, i < k)
+	}
+	if r.Chance(20) { // non-monotone ages: only the "newest / hwm / subset" guarantees apply
+		for i := range st.Ages {
+			st.Ages[i] = r.Bool()
+		}
+	}
+	if n > 0 {
+		st.HWM = infos[r.Intn(n)].Max + uint64(r.Intn(2))
+	}
+	return st
 }
 
 func (h *Runner) genRTX(cur uint32, toWAL bool) Step {
@@ -378,6 +412,14 @@ func (h *Runner) Exec(st Step) Obs {
 					err = fmt.Errorf("database missing after reopen")
 				}
 			}
+		case "retention":
+			err = h.retention(st)
+		case "tmpfile":
+			// stray temporary files with a TXID beyond the position must never be mistaken for transactions
+			dir := filepath.Join(h.DBDir(), "ltx")
+			t := h.RefPos + 5
+			_ = os.WriteFile(filepath.Join(dir, fmt.Sprintf("%016x-%016x.ltx.tmp", t, t)), []byte("garbage"), 0o644)
+			_ = os.WriteFile(filepath.Join(dir, fmt.Sprintf("%016x-%016x.ltx.%d.tmp", t+1, t+1, 12345)), []byte("garbage"), 0o644)
 		case "drop":
 			h.Rec.Drop()
 			err = h.DB.Drop(context.Background())
@@ -474,6 +516,42 @@ func (h *Runner) appCheckpoint(mode int) error {
 		h.Pager.RestartWAL(uint32(h.R.U64()), uint32(h.R.U64()))
 	}
 	return nil
+}
+
+func (h *Runner) retention(st Step) error {
+	infos, _ := lfs.ListLTX(h.DBDir())
+	if len(infos) != len(st.Ages) {
+		return nil
+	}
+	t0 := time.Now()
+	for i, f := range infos {
+		mt := t0.Add(time.Hour)
+		if st.Ages[i] {
+			mt = t0.Add(-time.Hour)
+		}
+		_ = os.Chtimes(filepath.Join(h.DBDir(), "ltx", f.Name), mt, mt)
+	}
+	if st.Backup {
+		h.Node.Store.BackupClient = litefs.NewFileBackupClient(filepath.Join(h.Dir, "backup-unused"))
+	} else {
+		h.Node.Store.BackupClient = nil
+	}
+	h.DB.SetHWM(ltx.TXID(st.HWM))
+	ages := "["
+	for i, a := range st.Ages {
+		if i > 0 {
+			ages += ";"
+		}
+		if a {
+			ages += "true"
+		} else {
+			ages += "false"
+		}
+	}
+	h.Rec.Ops = append(h.Rec.Ops, fmt.Sprintf("ORetention %s] %v %d", ages, st.Backup, st.HWM))
+	err := h.DB.EnforceRetention(context.Background(), t0)
+	h.Node.Store.BackupClient = nil
+	return err
 }
 
 func (h *Runner) observe(ob *Obs) {
